@@ -107,6 +107,9 @@ struct Config {
     route: [(u8, u8); 4],
     poison: (u8, u8),
     depth: usize,
+    /// operations executed (and checked like any other step) before the search starts: (intent to
+    /// ingest in its BFS form, then a pass) pairs — puts committed history under the search root
+    prefix_commits: Vec<u8>,
 }
 
 impl Config {
@@ -167,6 +170,7 @@ fn single_wl(focus: u8, pol: Pol, other: Pol, depth: usize) -> Config {
         route: [(1, focus); 4],
         poison: (1, o),
         depth,
+        prefix_commits: Vec::new(),
     }
 }
 
@@ -184,6 +188,7 @@ fn two_wl(p1: Pol, p2: Pol, depth: usize) -> Config {
         route: [(1, 0), (2, 1), (2, 1), (1, 0)],
         poison: (2, 0),
         depth,
+        prefix_commits: Vec::new(),
     }
 }
 
@@ -994,7 +999,7 @@ fn state_key(w: &World) -> [u8; 32] {
 }
 
 impl Search {
-    fn new(cx: Ctx, xs: Vec<Vec<Sym>>) -> Search {
+    fn new(r: &Report, cx: Ctx, xs: Vec<Vec<Sym>>) -> Search {
         let mut ops: Vec<Op> = (0..4u8)
             .map(|i| {
                 Op::Ingest(Sym {
@@ -1005,13 +1010,29 @@ impl Search {
             .collect();
         ops.push(Op::Tick);
         ops.push(Op::Ingest(Sym { intent: 4, form: 0 }));
-        let w0 = build_world(&cx.cfg);
+        let mut w0 = build_world(&cx.cfg);
+        // committed history under the root: each prefix intent is ingested and committed by its own pass
+        let mut path0: Vec<String> = Vec::new();
+        let mut out0 = Out::default();
+        for &i in &cx.cfg.prefix_commits {
+            let sym = Sym { intent: i, form: cx.cfg.f1(i) };
+            step_ingest(&cx, &mut w0, sym, true, &mut out0);
+            path0.push(sym_name(sym));
+            step_tick(&cx, &mut w0, &mut out0);
+            path0.push("pass".into());
+        }
+        for v in out0.viol.iter_mut() {
+            if v.2.is_null() {
+                v.2 = json!({"config": cx.cfg.name, "path": path0, "in": "prefix"});
+            }
+        }
+        flush(r, out0);
         let mut seen = BTreeSet::new();
         seen.insert(state_key(&w0));
         Search {
             sh: Shared { cx, xs, ops },
             seen,
-            frontier: vec![(w0, Vec::new())],
+            frontier: vec![(w0, path0)],
             res: BfsResult {
                 states: 1,
                 transitions: 0,
@@ -1501,6 +1522,12 @@ fn configs(r: &Report) -> Vec<Config> {
         }
         v.push(single_wl(0, Pol::Budgeted(1), Pol::Budgeted(1), 2));
         v.push(two_wl(Pol::Budgeted(1), Pol::AcceptAll, 2));
+        // two commits already under the root (intent a0, then intent a1, on the focus head): retries of
+        // an intent whose commit is NOT the worldline's latest are reached at depth 0
+        let mut deep = single_wl(1, Pol::AcceptAll, Pol::AcceptAll, 2);
+        deep.name = format!("{}:after-two-commits", deep.name);
+        deep.prefix_commits = vec![0, 1];
+        v.push(deep);
     } else {
         // all policies on either focus head, then two-worldline routings; the wall budget is shared
         // fairly (a configuration that exhausts its share reports the depth it completed)
@@ -1511,6 +1538,12 @@ fn configs(r: &Report) -> Vec<Config> {
         }
         for p1 in POLICIES {
             v.push(two_wl(p1, if p1 == Pol::AcceptAll { Pol::Budgeted(1) } else { Pol::AcceptAll }, 3));
+        }
+        for focus in [1u8, 0u8] {
+            let mut deep = single_wl(focus, Pol::AcceptAll, Pol::AcceptAll, 3);
+            deep.name = format!("{}:after-two-commits", deep.name);
+            deep.prefix_commits = vec![0, 1];
+            v.push(deep);
         }
     }
     v
@@ -1594,7 +1627,7 @@ fn main() {
                     }
                 }
             }
-            Search::new(cx, xs)
+            Search::new(&r, cx, xs)
         })
         .collect();
     explore_all(&r, &mut searches, &memo, frac);
